@@ -17,10 +17,14 @@ func Translated(translation Result) (string, error) {
 
 // postgres comments can be terminated by \r, \n, or both per the source:
 // https://github.com/postgres/postgres/blob/824d5f6241ea7a0a85c9d2b3d27beb78e42a36ab/src/backend/parser/scan.l#L186-L211
+//
+// U+FFFD is written as an escape: pgx's named-argument rewriter stops at that rune and would drop the statement
+// that follows the comment.
 var newlineToCommentReplacer = strings.NewReplacer(
 	"\r\n", "\n-- ",
 	"\r", "\n-- ",
 	"\n", "\n-- ",
+	"\uFFFD", "\\uFFFD",
 )
 
 func FromCypher(ctx context.Context, regularQuery *cypher.RegularQuery, kindMapper pgsql.KindMapper, stripLiterals bool, graphID int32) (format.Formatted, error) {
